@@ -15,6 +15,22 @@ def r_sample(ex, st, node, args, kw):
     ex.need(st, z3.And(k.term >= 0, k.term <= L), "ValueError", node, "random.sample: 0 <= k <= len(population)")
     r = z3.Const(S.fresh_name("sample"), pop.term.sort())
     st.facts.append(z3.Length(r) == k.term)
+    if pop.elem is S.Str:
+        # A-LIB: sampling without replacement draws distinct positions: a duplicate-free population gives a duplicate-free sample,
+        # every drawn element comes from the population, and a full-size sample lists exactly the population's elements
+        from .calls import apply_spec
+        from .builtins_model import set_of_seq
+        sp = ex.ctx.registry.specs.get("distinct") if ex.ctx.registry else None
+        if sp is not None:
+            dp = apply_spec(ex, sp, [pop, VNum(L, "int")], st).term
+            dr = apply_spec(ex, sp, [VSeq(r, pop.elem, "list"), VNum(z3.Length(r), "int")], st).term
+            st.facts.append(z3.Implies(dp, dr))
+        st.facts.append(z3.Implies(k.term == L, set_of_seq(ex, st, VSeq(r, pop.elem, "list")).term == set_of_seq(ex, st, pop).term))
+        spe = ex.ctx.registry.specs.get("elems") if ex.ctx.registry else None
+        if spe is not None:
+            er = apply_spec(ex, spe, [VSeq(r, pop.elem, "list"), VNum(z3.Length(r), "int")], st).term
+            ep = apply_spec(ex, spe, [pop, VNum(L, "int")], st).term
+            st.facts.append(z3.Implies(k.term == L, er == ep))
     v = VSeq(r, pop.elem, "list")
     v.sample_of = pop
     ex.ctx.ghost_log.append(("random.sample", f"{ex.relpath}:{node.lineno}"))
